@@ -293,8 +293,14 @@ func (api *API) mapEncodeMapKVPair(ctx context.Context, key, val reflect.Value, 
 		return "", nil, ierrors.Wrapf(err, "failed to encode map element of type %s", val.Type())
 	}
 
-	//nolint:forcetypeassert // map keys are always strings
-	return k.(string), v, nil
+	// a JSON object key is a string: a map key type whose map form is a number, a bool, an array or an object
+	// (e.g. map[uint16]T) has no JSON form
+	keyStr, ok := k.(string)
+	if !ok {
+		return "", nil, ierrors.Errorf("map key of type %s does not encode to a string but to %T", key.Type(), k)
+	}
+
+	return keyStr, v, nil
 }
 
 func (api *API) mapEncodeMap(ctx context.Context, value reflect.Value, ts TypeSettings, opts *options) (*orderedmap.OrderedMap, error) {
